@@ -971,8 +971,22 @@ class Gen:
             out = f"v{len(vals)}"
             nodes.append([opn, f"n{j}" if rng.random() < 0.8 else "", ins, [out]])
             vals.append(out)
+        cond = None
+        if self.feat.get("inline_if", True) and rng.random() < 0.3:
+            # an If inside the inlined model; its bodies read names of the enclosing (inlined) graph
+            cond = "cnd"
+            a, b = rng.choice(vals), rng.choice(vals)
+            # (node names stay unique within the inlined model: it has to be a valid model)
+            tn = [[rng.choice(["Neg", "Abs"]), rng.choice(["t0", ""]), [a], ["tv"]]]
+            en = [[rng.choice(["Relu", "Identity"]), rng.choice(["e0", ""]), [b], ["ev0"]],
+                  ["Add", "e1", ["ev0", a], ["ev"]]]
+            out = f"v{len(vals)}"
+            nodes.append(["If", rng.choice(["if0", ""]), [cond], [out], [tn, "tv", en, "ev"]])
+            vals.append(out)
         nout = rng.choice([1, 1, 2])
         outs = rng.sample(vals[nin:], min(nout, len(vals) - nin))
+        if cond and vals[-1] not in outs:
+            outs[0] = vals[-1]
         inits = []
         if rng.random() < 0.3:
             vals.append("w")
@@ -981,6 +995,8 @@ class Gen:
             outs[0] = "vw"
         ms = {"ins": vals[:nin], "outs": outs, "nodes": nodes, "inits": inits,
               "opset": rng.choice([17, 17, 18, 19, 21]) if self.feat["mixed"] else 17}
+        if cond:
+            ms["cond"] = cond
         self.models.append(ms)
         return len(self.models) - 1
 
@@ -1091,15 +1107,34 @@ def rename_adversarial(spec, rng, harvested):
                                         "If_0_then_branch__Inline_0__n0", "Loop_0_body__Inline_0__n0"])
         for ms in spec["models"]:
             if "nodes" in ms:
-                for nd in ms["nodes"]:
-                    if nd[1] and rng.random() < 0.5 and not any(x[1] == nd[1] + "_0" for x in ms["nodes"]):
+                flat = []
+
+                def _flat(nodes):
+                    for nd in nodes:
+                        flat.append(nd)
+                        if nd[0] == "If":
+                            _flat(nd[4][0])
+                            _flat(nd[4][2])
+
+                _flat(ms["nodes"])
+                for nd in flat:
+                    if nd[1] and rng.random() < 0.5 and not any(x[1] == nd[1] + "_0" for x in flat):
                         nd[1] = nd[1] + "_0"
     if p > 0.35:
         for ms in spec["models"]:
             if "nodes" not in ms:
                 continue
             ren = {}
-            vals = list(dict.fromkeys(ms["ins"] + [o for nd in ms["nodes"] for o in nd[3]] + [n for n, _ in ms["inits"]]))
+            def _all_nodes(nodes):
+                for nd in nodes:
+                    yield nd
+                    if nd[0] == "If":
+                        yield from _all_nodes(nd[4][0])
+                        yield from _all_nodes(nd[4][2])
+
+            allnodes = list(_all_nodes(ms["nodes"]))
+            vals = list(dict.fromkeys(ms["ins"] + [o for nd in allnodes for o in nd[3]] + [n for n, _ in ms["inits"]]
+                                      + ([ms["cond"]] if ms.get("cond") else [])))
             loc_used = set()
             for v in vals:
                 if rng.random() < 0.5:
@@ -1111,12 +1146,17 @@ def rename_adversarial(spec, rng, harvested):
             ms["outs"] = [ren.get(v, v) for v in ms["outs"]]
             ms["inits"] = [[ren.get(n, n), vals_] for n, vals_ in ms["inits"]]
             nn_used = set()
-            for nd in ms["nodes"]:
+            if ms.get("cond"):
+                ms["cond"] = ren.get(ms["cond"], ms["cond"])
+            for nd in allnodes:
                 nd[2] = [ren.get(v, v) for v in nd[2]]
                 nd[3] = [ren.get(v, v) for v in nd[3]]
+                if nd[0] == "If":
+                    nd[4][1] = ren.get(nd[4][1], nd[4][1])
+                    nd[4][3] = ren.get(nd[4][3], nd[4][3])
                 if nd[1] and rng.random() < 0.5:
                     n = rng.choice(pool)
-                    if n not in nn_used and all(n != x[1] for x in ms["nodes"]):
+                    if n not in nn_used and all(n != x[1] for x in allnodes):
                         nd[1] = n
                         nn_used.add(n)
     return spec
